@@ -1063,6 +1063,7 @@ class OdeSystem(object):
                         if end_int:
                             for _ in range(len(self.__sol) - __pre_length):
                                 self.__sol.remove_interpolant(-1 if dTime >= 0 else 0)
+                            self.initialise_integrator(preserve_states=True)
                             self.integrate(roots[-1])
                             self.__int_status = 2
                         else:
